@@ -1,6 +1,7 @@
 package v2
 
 import (
+	"errors"
 	"net/http"
 	"net/url"
 
@@ -11,6 +12,7 @@ import (
 
 	"github.com/formancehq/ledger/internal/api/common"
 	"github.com/formancehq/ledger/internal/controller/ledger"
+	"github.com/formancehq/ledger/pkg/accounts"
 )
 
 func addAccountMetadata(w http.ResponseWriter, r *http.Request) {
@@ -19,6 +21,11 @@ func addAccountMetadata(w http.ResponseWriter, r *http.Request) {
 	address, err := url.PathUnescape(chi.URLParam(r, "address"))
 	if err != nil {
 		api.BadRequestWithDetails(w, common.ErrValidation, err, err.Error())
+		return
+	}
+
+	if !accounts.ValidateAddress(address) {
+		api.BadRequest(w, common.ErrValidation, errors.New("invalid account address format"))
 		return
 	}
 
